@@ -34,7 +34,7 @@ class Hash(enum.Enum):
 # simpler.
 _HASH_REGEXES = {
     Hash.MD5: r"^[a-f0-9]{32}\Z",
-    Hash.MD6: r"^[a-f0-9]{32}|[a-f0-9]{40}|[a-f0-9]{56}|[a-f0-9]{64}|[a-f0-9]{96}|[a-f0-9]{128}\Z",
+    Hash.MD6: r"^(?:[a-f0-9]{32}|[a-f0-9]{40}|[a-f0-9]{56}|[a-f0-9]{64}|[a-f0-9]{96}|[a-f0-9]{128})\Z",
     Hash.RIPEMD160: r"^[a-f0-9]{40}\Z",
     Hash.SHA1: r"^[a-f0-9]{40}\Z",
     Hash.SHA224: r"^[a-f0-9]{56}\Z",
